@@ -1,6 +1,6 @@
 (* C42 — property theorems only.  Each is closed by `exact <lemma>` and followed by Print Assumptions. *)
 From Coq Require Import List NArith Bool Arith.
-From Verif.C42 Require Import Model Spec Proofs ProofsApply ProofsFinal ProofsIds ProofsSpec ProofsPin ProofsMaglev ProofsSched ProofsOracle ModelMg ProofsMg ProofsProj ProofsThree ProofsSched3 Witness.
+From Verif.C42 Require Import Model Spec Proofs ProofsApply ProofsFinal ProofsIds ProofsSpec ProofsPin ProofsMaglev ProofsSched ProofsOracle ModelMg ProofsMg ProofsProj ProofsThree ProofsSched3 ProofsWrap Witness.
 Import ListNotations.
 Open Scope N_scope.
 
@@ -327,3 +327,24 @@ Theorem c42_schedule_exists_three_maps : forall cfg b lut lutf ins sy d,
   exists ops states sy' d', map erase3 ops = ins /\ run_history3 cfg b lut lutf sy d ops = Some (states, sy', d').
 Proof. exact schedule_exists3. Qed.
 Print Assumptions c42_schedule_exists_three_maps.
+
+(* uint32 nextSvcID (partial).  The code's counter is a uint32, the model's an unbounded N; they coincide while no
+   allocation wraps.  The model's counter grows by at most the number of applySvc units per Apply, and a startup sync
+   sets it at most one above the largest id present in the frontend map - so the "fewer than 2^32 ids" assumption is
+   the explicit arithmetic condition  next0 + (units of all applies) < 2^32.  Not done: a model WITH wrap-around (after
+   a wrap the code can hand out an id that is still in use; the code's own comment says "we may run out of IDs"). *)
+Theorem c42_id_counter_bounded_partial : forall cfg sy d st v fF fB tr sy' d' err,
+  exec_apply cfg sy d st v fF fB tr = Some (sy', d', err) ->
+  exists next us,
+    visit_all (sy_prev (if sy_synced sy then sy else startup (c_reset cfg) (c_npips cfg) sy (fst d) st))
+              (sy_next (if sy_synced sy then sy else startup (c_reset cfg) (c_npips cfg) sy (fst d) st)) st v = Some (next, us)
+    /\ sy_next sy' = next
+    /\ next <= sy_next (if sy_synced sy then sy else startup (c_reset cfg) (c_npips cfg) sy (fst d) st) + N.of_nat (length us).
+Proof. exact apply_next_bound. Qed.
+Print Assumptions c42_id_counter_bounded_partial.
+
+Theorem c42_startup_counter_bounded_partial : forall reset npips sy fe st B,
+  sy_next sy <= B -> (forall k v, In (k, v) fe -> fv_id v + 1 <= B) ->
+  sy_next (startup reset npips sy fe st) <= B.
+Proof. exact startup_next_bound. Qed.
+Print Assumptions c42_startup_counter_bounded_partial.
